@@ -66,7 +66,18 @@ func (c *Ctx) runRule(name string) []Obligation {
 	if r == nil {
 		panic("unknown rule " + name)
 	}
-	obs := r.Run(c)
+	// a rule that panics on an unforeseen shape has not decided anything: reported as an
+	// undecided obligation (which fails the check with a diagnosable line), not as a crash
+	var obs []Obligation
+	func() {
+		defer func() {
+			if rec := recover(); rec != nil {
+				obs = []Obligation{{Key: "rule " + name + " ran to completion", Verdict: UNDECIDED,
+					Detail: fmt.Sprintf("the rule panicked on this tree (%v): nothing is decided by it", rec)}}
+			}
+		}()
+		obs = r.Run(c)
+	}()
 	for i := range obs {
 		if obs[i].Rule == "" {
 			obs[i].Rule = name
